@@ -28,9 +28,8 @@ Fixpoint digits_val (acc : Z) (t : str) : option Z :=
 Definition parse_nat (t : str) : option Z := match t with [] => None | _ => digits_val 0 t end.
 Definition split_sign (t : str) : bool * str :=     (* (negative?, rest) *)
   match t with
-  | 45 :: r => (true, r)
-  | 43 :: r => (false, r)
-  | _ => (false, t)
+  | c :: r => if c =? 45 then (true, r) else if c =? 43 then (false, r) else (false, t)
+  | [] => (false, t)
   end.
 Definition parse_int (t : str) : option Z :=
   let '(neg, r) := split_sign (strip t) in
